@@ -241,3 +241,84 @@ func canonType(t types.Type, depth int) string {
 	}
 	return t.String()
 }
+
+// Closure numbering tolerance. go/ssa names function literals P$1, P$2, … in source order, so inserting or
+// removing one literal renumbers the following ones and the contracts (which name closures) would attach to the
+// wrong bodies. The baseline records, per parent function, the ordered signatures of its literals; when the
+// current sequence differs, the literals are aligned by longest common subsequence of signatures, matched ones
+// keep their baseline names, and new ones get names that no contract mentions (P$n1, …).
+
+type ClosureSig struct {
+	Suffix string `json:"suffix"`
+	Key    string `json:"key"`
+}
+
+func closureKey(fn *ssa.Function) string {
+	var fv []string
+	for _, v := range fn.FreeVars {
+		fv = append(fv, canonType(v.Type(), 0)) // types only: captured variables may be renamed
+	}
+	return canonType(fn.Signature, 0) + "|" + strings.Join(fv, ",")
+}
+
+// alignClosures returns, for each literal of the parent (in order), the suffix it should get.
+func alignClosures(base []ClosureSig, cur []string) ([]string, bool) {
+	n, m := len(base), len(cur)
+	same := n == m
+	if same {
+		for i := range base {
+			if base[i].Key != cur[i] {
+				same = false
+			}
+		}
+	}
+	out := make([]string, m)
+	if same || n == 0 {
+		return nil, false
+	}
+	// LCS table
+	l := make([][]int, n+1)
+	for i := range l {
+		l[i] = make([]int, m+1)
+	}
+	for i := n - 1; i >= 0; i-- {
+		for j := m - 1; j >= 0; j-- {
+			if base[i].Key == cur[j] {
+				l[i][j] = l[i+1][j+1] + 1
+			} else if l[i+1][j] >= l[i][j+1] {
+				l[i][j] = l[i+1][j]
+			} else {
+				l[i][j] = l[i][j+1]
+			}
+		}
+	}
+	i, j, fresh := 0, 0, 0
+	for i < n && j < m {
+		if base[i].Key == cur[j] {
+			out[j] = base[i].Suffix
+			i++
+			j++
+		} else if l[i+1][j] >= l[i][j+1] {
+			i++
+		} else {
+			fresh++
+			out[j] = fmt.Sprintf("$n%d", fresh)
+			j++
+		}
+	}
+	for ; j < m; j++ {
+		fresh++
+		out[j] = fmt.Sprintf("$n%d", fresh)
+	}
+	return out, true
+}
+
+func (e *Engine) allClosures() map[string][]ClosureSig {
+	m := map[string][]ClosureSig{}
+	for name, fn := range e.funcs {
+		for _, af := range fn.AnonFuncs {
+			m[name] = append(m[name], ClosureSig{Suffix: strings.TrimPrefix(e.fnName[af], name), Key: closureKey(af)})
+		}
+	}
+	return m
+}
